@@ -5,7 +5,7 @@ import time
 import z3
 
 from .sym import (SV, State, Unsupported, NONE, MARKER, mk_int, mk_bool,
-                  fresh, INT, BOOL, KS, ELEM_SORT, ELEM_KIND, KIND_SORT)
+                  fresh, INT, BOOL, KS, ELEM_SORT, ELEM_KIND, KIND_SORT, ELEM_DEFAULT)
 from .engine import Obl, FIELDS, CLASS_IDS, PERSISTENT, field_sort
 from .expr import exc, exc_matches
 from .spec import SpecCtx, Contract, parse_kind
@@ -137,6 +137,7 @@ class Verifier(Exec):
                             res.append((s2, ("raise", i)))
                             continue
                         c = self.lcontent(s2, obj.z, obj.x)
+                        self.u_typed(s2, v, ELEM_KIND[obj.x] if obj.x != "R" else "ref", "list.store")
                         x = self.coerce(v, ELEM_KIND[obj.x] if obj.x != "R" else "ref")
                         self.lset(s2, obj.z, obj.x, z3.Store(c, i, x))
                         res.append((s2, None))
@@ -149,6 +150,16 @@ class Verifier(Exec):
         raise Unsupported("assignment target " + type(target).__name__)
 
     def st_Assign(self, node, st):
+        if isinstance(node.value, ast.List) and not node.value.elts and len(node.targets) == 1 \
+                and isinstance(node.targets[0], ast.Name):
+            # `x = []`: the element kind is declared by the contract (ghost local_types)
+            lt = (self.cur_stack[-1].ghost.get("local_types") or {}) if self.cur_stack[-1] else {}
+            ek = lt.get(node.targets[0].id)
+            if ek is None:
+                raise Unsupported("empty list literal assigned to %s needs ghost local_types" % node.targets[0].id)
+            st.env[node.targets[0].id] = self.new_list(st, ek, z3.K(INT, ELEM_DEFAULT[ek]), z3.IntVal(0))
+            return [(st, None)]
+
         def f(s, v):
             outs = [(s, None)]
             for t in node.targets:
